@@ -33,7 +33,7 @@ const c16RingTail = "\t\t}\n\n\t\tring = append(ring, s.Line...)\n\t}\n\n\tif (h
 const c16JoinSwitchForm = "\t\tsearch:\n\t\t\tfor i, segment := range segments {\n\t\t\t\tswitch {\n\t\t\t\tcase last.Equal(segment.First()):\n\t\t\t\t\tsegment.Line = segment.Line[1:]\n\t\t\t\t\tcurrent = append(current, segment)\n\t\t\t\t\tfoundAt = i\n\t\t\t\t\tbreak search\n\t\t\t\tcase last.Equal(segment.Last()):\n\t\t\t\t\tsegment.Reverse()\n\t\t\t\t\tsegment.Line = segment.Line[1:]\n\t\t\t\t\tcurrent = append(current, segment)\n\t\t\t\t\tfoundAt = i\n\t\t\t\t\tbreak search\n\t\t\t\tcase first.Equal(segment.Last()):\n\t\t\t\t\tsegment.Line = segment.Line[:len(segment.Line)-1]\n\t\t\t\t\tcurrent = append(MultiSegment{segment}, current...)\n\t\t\t\t\tfoundAt = i\n\t\t\t\t\tbreak search\n\t\t\t\tcase first.Equal(segment.First()):\n\t\t\t\t\tsegment.Reverse()\n\t\t\t\t\tsegment.Line = segment.Line[:len(segment.Line)-1]\n\t\t\t\t\tcurrent = append(MultiSegment{segment}, current...)\n\t\t\t\t\tfoundAt = i\n\t\t\t\t\tbreak search\n\t\t\t\t}\n\t\t\t}\n"
 
 // c16Benign: behaviour-preserving rewrites (one overlay edit each) of the code the rules evaluate; all silent.
-var c16Benign = append(append(append(append([]core.Mutant{}, c16Benign1...), c16Benign2...), c16Benign3...), c16Benign4...)
+var c16Benign = append(append(append(append(append([]core.Mutant{}, c16Benign1...), c16Benign2...), c16Benign3...), c16Benign4...), c16Benign5...)
 
 var c16Benign1 = []core.Mutant{
 	// control-flow shape: tagless switch with a labelled break
